@@ -72,7 +72,11 @@ SPEC_CONTRIB = {
 
 HEADER = """From Coq Require Import String NArith ZArith List.
 From V Require Import Base.UString Base.Json Model.JcsText Model.Jcs Model.ScoId Gen.ScoIdTables Model.ScoIdRun.
+From V Require Model.Timestamp.
 Import ListNotations. Open Scope N_scope. Open Scope string_scope.
+Notation PAny := Timestamp.PAny. Notation PSecond := Timestamp.PSecond. Notation PMilli := Timestamp.PMilli.
+Notation CExact := Timestamp.CExact. Notation CMin := Timestamp.CMin.
+Notation Pad4 := Timestamp.Pad4. Notation Unpadded := Timestamp.Unpadded.
 """
 
 FINDING_HASH = "C06-hash-fallback-dict-order"
@@ -97,6 +101,25 @@ def fmt_ts(t):
     else:
         raise ValueError("unknown precision %r" % prec)
     return base + ("." + frac if frac else "") + "Z"
+
+
+EPOCH = dt.datetime(1, 1, 1)
+YEAR_MODE = ["Pad4"]      # set by check() from a probe of format_datetime on a year below 1000
+
+
+def stamp_term(t):
+    """(PStamp ym p c instant): the UTC instant in microseconds since 0001-01-01T00:00:00Z (Model/Calendar.v) and
+    the precision settings; the text is then produced inside Coq by C15's model of format_datetime"""
+    try:
+        d = dt.datetime(t["y"], t["mo"], t["d"], t["h"], t["mi"], t["s"], t["us"])
+        if t.get("off_s"):
+            d = d - dt.timedelta(seconds=t["off_s"])
+    except (ValueError, OverflowError):
+        raise Unsupported("instant outside years 1..9999")
+    inst = (d - EPOCH) // dt.timedelta(microseconds=1)
+    prec = {"ANY": "PAny", "SECOND": "PSecond", "MILLISECOND": "PMilli", None: "PAny"}[t.get("prec")]
+    pc = {"EXACT": "CExact", "MIN": "CMin", None: "CExact"}[t.get("pc")]
+    return "(PStamp %s %s %s %s)" % (YEAR_MODE[0], prec, pc, common.coq_Z(inst))
 
 
 # --------------------------------------------------------------------------
@@ -140,7 +163,7 @@ def view_to_pval(t):
         x = float.fromhex(t["f"]) if t["f"] not in ("nan", "inf", "-inf") else float(t["f"])
         return "(PFloat %s)" % common.coq_ustr(repr(x))
     if "t" in t:
-        return "(PTime %s)" % common.coq_ustr(fmt_ts(t["t"]))
+        return stamp_term(t["t"])
     if "a" in t:
         return "(PList %s)" % common.coq_list([view_to_pval(x) for x in t["a"]])
     if "o" in t:
@@ -835,6 +858,9 @@ def gen_groups(rng, tier, start_index=0):
         contrib = [nm for nm in names if maybe(rng, 0.6)]
         if maybe(rng, 0.2):
             rng.shuffle(contrib)
+        given = contrib
+        if maybe(rng, 0.12):
+            given, contrib = None, []          # id_contrib_props not passed: the builder's default
         present = [(nm, kd) for nm, kd in props if maybe(rng, 0.8)]
         items = [(nm, gen_custom_value(rng, kd)) for nm, kd in present]
         if not items:
@@ -843,7 +869,7 @@ def gen_groups(rng, tier, start_index=0):
         for rel, order in (("base", items), ("same", [(k, shuffle_view(rng, v)) for k, v in rng.sample(items, len(items))])):
             counter[0] += 1
             t2 = "x-verif-%d" % counter[0]
-            g.append((mk(t2, order, rng.choice(["ctor", "parse"]), custom={"props": props, "contrib": contrib},
+            g.append((mk(t2, order, rng.choice(["ctor", "parse"]), custom={"props": props, "contrib": contrib, "given": given},
                          allow_custom=True), rel))
         groups.append(g)
 
@@ -905,6 +931,34 @@ def run_cases(cases):
     return common.run_impl("c06_impl", cases)
 
 
+def run_cases_other_process(cases, hashseed):
+    """the same cases in a fresh interpreter with another PYTHONHASHSEED (ids must not depend on the process)"""
+    import json
+    import subprocess
+    env = common.impl_env()
+    env["PYTHONHASHSEED"] = str(hashseed)
+    script = os.path.join(common.VERIF, "harness", "impl", "c06_impl.py")
+    p = subprocess.run([common.PY, script], input="\n".join(json.dumps(c) for c in cases) + "\n", stdout=subprocess.PIPE,
+                       stderr=subprocess.PIPE, text=True, env=env, timeout=1800, cwd=common.scratch())
+    if p.returncode != 0:
+        raise RuntimeError("c06_impl failed under PYTHONHASHSEED=%s:\n%s" % (hashseed, p.stderr[-1500:]))
+    return [json.loads(l) for l in p.stdout.split("\n") if l.strip()]
+
+
+def process_violations(cases, obs, rng, n=400):
+    idx = [i for i, o in enumerate(obs) if "id" in o and not is_uuid4_id(cases[i]["type"], o["id"])]
+    idx = rng.sample(idx, min(n, len(idx)))
+    if not idx:
+        return [], 0
+    other = run_cases_other_process([cases[i] for i in idx], rng.randrange(1, 2 ** 31))
+    out = []
+    for i, o2 in zip(idx, other):
+        if o2.get("id") != obs[i]["id"]:
+            out.append(Violation("the id depends on the process: %s with PYTHONHASHSEED=0, %s with another hash seed"
+                                 % (obs[i]["id"], o2.get("id") or o2.get("exc")), {"kind": "process", "cases": [cases[i]]}))
+    return out, len(idx)
+
+
 def model_terms(cases, obs, hp):
     terms, idx = [], []
     for i, (c, o) in enumerate(zip(cases, obs)):
@@ -919,8 +973,10 @@ def model_terms(cases, obs, hp):
         except Unsupported:
             continue
         if c.get("custom"):
+            given = c["custom"].get("given", c["custom"]["contrib"])
             t = "run_id_custom %s %s %s %s" % (hp, common.coq_ustr(c["type"]),
-                                               common.coq_list([common.coq_ustr(x) for x in c["custom"]["contrib"]]), ot)
+                                               common.coq_option(None if given is None else
+                                                                 common.coq_list([common.coq_ustr(x) for x in given])), ot)
         else:
             t = "run_id %s %s %s" % (hp, common.coq_ustr(c["type"]), ot)
         terms.append(t)
@@ -1021,6 +1077,9 @@ def check(run):
     model_ok = meta is not None and os.path.exists(os.path.join(common.COQ, "Model", "ScoIdRun.vo"))
 
     # ---- which variant does the code match?
+    probe = run_cases([{"probe": "year999"}])[0].get("text", "")
+    YEAR_MODE[0] = "Pad4" if probe.startswith("0999-") else "Unpadded"
+    run.coverage["year_mode"] = YEAR_MODE[0]
     wobs = run_cases(witness_cases())
     hp, why = select_variant(wobs)
     run.coverage["variant"] = hp or "none (%s)" % why
@@ -1049,6 +1108,12 @@ def check(run):
         run.broken.append(Broken("correspondence", "model evaluation failed", {"error": str(e)[-1500:]}))
         cases, obs, dis, compared, skipped, v2, stats = evaluate(groups, None)
     vio += v2
+    try:
+        v4, n_proc = process_violations(cases, obs, run.rng)
+        vio += v4
+        run.coverage["other_process_cases"] = n_proc
+    except RuntimeError as e:
+        run.broken.append(Broken("correspondence", "second process run failed", {"error": str(e)[-800:]}))
     for c, o in zip(cases, obs):
         run.count({"c": c["type"], "m": c["mode"], "p": c["props"], "cu": c["custom"]}, nontrivial="id" in o)
     run.coverage["distribution"] = stats
@@ -1138,6 +1203,13 @@ def replay(payload):
         if obs[0]["id"] != obs[1]["id"]:
             print("  same contributing values, different ids")
             bad = True
+    if r["kind"] == "process":
+        for hs in (1, 12345, 987654321):
+            o2 = run_cases_other_process(cases, hs)
+            for a, b in zip(obs, o2):
+                if a.get("id") != b.get("id"):
+                    print("  PYTHONHASHSEED=0 -> %s, PYTHONHASHSEED=%d -> %s" % (a.get("id"), hs, b.get("id") or b.get("exc")))
+                    bad = True
     if bad:
         print("VIOLATION property=C06 replay=(given)")
         return 1
